@@ -72,6 +72,8 @@ ALIAS_MAPS = [
     [{"rule": "/s/<x>/<int:p>", "endpoint": "s"}, {"rule": "/s/<x>", "endpoint": "s", "defaults": {"p": 1}, "alias": True}, "/s"],
     # an alias that binds one argument more than its canonical rule
     [{"rule": "/i/<int:n>", "endpoint": "i"}, {"rule": "/i/<int:n>/<t>", "endpoint": "i", "alias": True}],
+    # a strict branch rule whose path converter legitimately admits doubled slashes
+    ["/<path:p>/", "/x"],
 ]
 
 
@@ -239,18 +241,23 @@ def merged(path):
     return out
 
 
-def body_match(I, X, mi=0, order=0, strict=True, merge=True, n=3, method="GET", check_redirect=True, script="/", scheme="http", pct=False):
+def body_match(I, X, mi=0, order=0, strict=True, merge=True, n=3, method="GET", check_redirect=True, script="/", scheme="http", pct=False, qbind=False):
     from werkzeug.exceptions import MethodNotAllowed, NotFound
     from werkzeug.routing import RequestRedirect
 
     m, refs = build_map(mi, order, strict, merge)
-    adapter = m.bind("example.org", script, url_scheme=scheme)
+    # the query string is given to match(), or (qbind) once at bind time as bind_to_environ does
+    adapter = m.bind("example.org", script, url_scheme=scheme, query_args="q=1" if qbind else None)
     tail = X.str("path", n, minlen=n, maxcp=0x7E)
     X.assume(pall_in(tail, [(0x21, 0x7E)]))
     # no query / fragment markers; a literal '%' (the server delivers decoded paths, so this is
     # a percent sign the client sent as %25) only where the caller asks for it (C12)
     X.assume(pnone_in(tail, [0x3F, 0x23] if pct else [0x25, 0x3F, 0x23]))
     path = pconcat("/", tail)
+    if any(isinstance(t, str) and "<path:" in t and t.endswith(">/") for t in ALL_MAPS()[mi]):
+        # a path value does not end with '/' (converter's canonical domain): '/x//' is not read
+        # as p='x/' plus the branch slash
+        X.assume(pnot(pendswith(path, "//")))
     if not strict:
         # outside the claim: with strict_slashes off a branch rule also swallows a doubled
         # trailing slash ('/a//' matches '/a/'); the declarative reading does not say so
@@ -267,7 +274,10 @@ def body_match(I, X, mi=0, order=0, strict=True, merge=True, n=3, method="GET", 
                 pand(ref_admits_text(r"/q/\d+/?", tail, X), pnot(ref_admits_text(r"/q/\d\d", tail, X)), pnot(peq(merged(path), path))))
     outcome = None
     try:
-        rule, args = I.call(adapter.match, (), {"path_info": path, "method": method, "return_rule": True, "query_args": "q=1"})
+        mkw = {"path_info": path, "method": method, "return_rule": True}
+        if not qbind:
+            mkw["query_args"] = "q=1"
+        rule, args = I.call(adapter.match, (), mkw)
         outcome = ("match", rule.endpoint, dict(I.dict_items(args)) if not isinstance(args, dict) or X.symbolic else dict(args))
     except RequestRedirect as e:
         outcome = ("redirect", e.new_url)
@@ -345,7 +355,13 @@ def body_match(I, X, mi=0, order=0, strict=True, merge=True, n=3, method="GET", 
             slashy = por(peq(target, quoted(exp1)), peq(target, quoted(mp)), peq(target, quoted(pconcat(mp, "/"))))
             # what the request denotes: the rule (endpoint, arguments) admitting its canonical form
             denotes = []
-            for cand in (norm, exp1, mp, pconcat(mp, "/")):
+            unmerged_hit = False
+            for ci, cand in enumerate((norm, exp1, mp, pconcat(mp, "/"))):
+                if ci == 2 and denotes:
+                    # some rule admits the path as written (or with the slash appended): doubled
+                    # slashes in it are data, the merged forms do not count
+                    unmerged_hit = True
+                    break
                 for r in refs:
                     how, g = admits(r, cand, X, strict)
                     if how == "exact" and (r["methods"] is None or method in r["methods"]):
